@@ -49,6 +49,9 @@ func init() {
 	reg[uintptr]("uintptr")
 	reg[float32]("float32")
 	reg[float64]("float64")
+	reg[kit.NInt16]("NInt16")
+	reg[kit.NUint8]("NUint8")
+	reg[kit.NFloat32]("NFloat32")
 }
 
 func Check(c *Case) kit.Result {
@@ -332,7 +335,7 @@ func FP(c *Case) uint64 {
 	return h.Sum()
 }
 
-var names = kit.BuiltinNames()
+var names = append(kit.BuiltinNames(), kit.SomeNamed...)
 
 func Gen(t *rapid.T) *Case {
 	c := &Case{T: rapid.SampledFrom(names).Draw(t, "type"), C: kit.GenChannels(t)}
